@@ -1,5 +1,6 @@
 import Txtpp.Model.Panic
 import Txtpp.Lemmas.Term
+import Txtpp.Lemmas.InjectSpec
 /-!
 # Property C18 — no input or configuration makes txtpp panic or hang
 
@@ -59,6 +60,44 @@ theorem no_hang (w : Coord.World) (inputs U : List Coord.File) (n : Nat) (s : Co
     (hseen : s.seen.length ≤ U.length) :
     n ≤ 2 * U.length ∧ (s.done = s.total ↔ s.pool = []) :=
   ⟨Coord.terminates w inputs U n s h hseen, Coord.acct w inputs s (Coord.reachN_reach w inputs n s h)⟩
+
+/-- tag_state.rs:84,92 `&output[last_end..*i]`, `&output[last_end..]`: for every substituted
+occurrence the previous end is ≤ its start (so the range is not inverted), its end is within the
+line, and both offsets are the byte lengths of prefixes of the line (char boundaries) -/
+theorem site_inject_slices (t : TagState) (line : List Char) :
+    let sel := select (sortM (matchesOf t.stored line)) 0
+    sel.Pairwise (fun a b => a.1 + a.2.1.length ≤ b.1) ∧
+    (∀ m ∈ sel, m.1 + m.2.1.length ≤ line.length) ∧
+    (∀ n, byteSplit line (utf8Len (line.take n)) = some (line.take n, line.drop n)) := by
+  intro sel
+  refine ⟨(select_nonoverlap _ 0).2, ?_, ?_⟩
+  · intro m hm
+    have hm1 := select_sub _ 0 m hm
+    have hm2 : m ∈ matchesOf t.stored line := (sortM_perm _).subset hm1
+    obtain ⟨_, hp, _⟩ := match_is_first_occurrence t.stored line m hm2
+    have := hp.length_le
+    simp only [List.length_drop] at this
+    by_cases hl : m.1 ≤ line.length
+    · omega
+    · -- beyond the end `drop` is empty, so the name is empty and the index is a `find` result ≤ len
+      have hd : line.drop m.1 = [] := List.drop_eq_nil_of_le (by omega)
+      rw [hd] at hp
+      have hk : m.2.1 = [] := List.eq_nil_of_prefix_nil hp
+      -- the index comes from `findSub`, whose first component is a prefix of the line
+      simp only [matchesOf, List.mem_filterMap, Option.map_eq_some_iff] at hm2
+      obtain ⟨kv, _, i, hi, rfl⟩ := hm2
+      unfold findIdx at hi
+      cases hf : findSub kv.1 line with
+      | none => simp [hf] at hi
+      | some r =>
+        obtain ⟨a, b⟩ := r
+        simp [hf] at hi; subst hi
+        have := (findSub_some _ _ _ _ hf).1
+        have hlen : a.length ≤ line.length := by rw [this]; simp
+        simp at hl; omega
+  · intro n
+    have := byteSplit_append (line.take n) (line.drop n)
+    rwa [List.take_append_drop] at this
 
 example : byteSplit ['é', 'x'] 1 = none := by decide
 example : byteSplit ['é', 'x'] 2 = some (['é'], ['x']) := by decide
